@@ -171,6 +171,16 @@ def run(ck):
     batch = [pre + w + suf for w in words for pre in glue for suf in ["", "1", "_", "x", " ", "!"]]
     core.compare(ck, "glued_words", batch, lambda s: "lex %s" % hexs(s), counted=True)
     ck.count("glued_words", 0, set(batch), sample={"text": batch[len(batch) // 3]})
+    # (1d) integer literals around the 64-bit boundaries in every base and sign, and the preprocessor directives as the lexer sees them
+    nums = []
+    for v in [0, 1, 2 ** 31, 2 ** 32, 2 ** 63 - 1, 2 ** 63, 2 ** 63 + 1, 2 ** 64 - 1, 2 ** 64, 2 ** 64 + 1, 10 ** 19, 10 ** 20, 2 ** 65, 2 ** 127]:
+        for sign in ("", "+", "-"):
+            nums += [sign + str(v), sign + "0x%x" % v, sign + "0X%x" % v, sign + "0b" + bin(v)[2:], sign + "0" * 3 + str(v), sign + "0x" + "0" * 20 + "%x" % v]
+    nums += ["0b" + "1" * k for k in (1, 63, 64, 65, 128)] + ["0x" + "f" * k for k in (15, 16, 17, 32)] + ["9" * k for k in (18, 19, 20, 21, 40)]
+    dirs = ["#ifdef A", "#ifndef B", "#endif", "#define C", "#else", "#", "#if", "#ifdefA", "#define", "# define X", "#ifdef\tA", "#include", "#elif", "#IFDEF A"]
+    batch = [pre + x + suf for x in nums + dirs for pre in ("", " ", "a", "a ") for suf in ("", " ", ";", "\n", "x")]
+    core.compare(ck, "boundary_numbers_and_directives", batch, lambda s: "lex %s" % hexs(s), counted=True)
+    ck.count("boundary_numbers_and_directives", 0, set(batch), sample={"text": batch[len(batch) // 2]})
     # (2) spec-level sequences: reference expectation vs implementation (and model)
     cases = []
     for _ in range(1500 if quick else 400000):
